@@ -31,11 +31,22 @@ func concRun(rng *rand.Rand, c concCfg, rec *tr.Rec) {
 	// weight-mismatch histories belong to the sequential part of the check)
 	wset := []int{1, 2, 3, 5, 10}
 	if c.strat == "conhash" || c.strat == "conhashd" {
-		wset = []int{0, 4, 8, 40, 100}
+		// 1..3: fewer than one round of four ring points, eligible all the same; 0: no points
+		wset = []int{0, 1, 2, 3, 4, 8, 40, 100}
+		if rng.Intn(4) == 0 {
+			wset = []int{0, 1, 2, 3} // a run in which every eligible endpoint has a small weight
+		}
 	}
 	weight := make([]int, H+1)
+	wtype := make([]int, H+1)
 	for h := 1; h <= H; h++ {
 		weight[h] = wset[rng.Intn(len(wset))]
+		wtype[h] = 1
+	}
+	// one weight type per host for the whole run; in a quarter of the weighted runs one host carries no static
+	// weight: while it is a member no static weights apply (plain rotation / h mod N), afterwards they apply again
+	if c.wt && rng.Intn(4) == 0 {
+		wtype[1+rng.Intn(H)] = 0
 	}
 	sel, _ := newSelector(c.strat, c.wt)
 	rec.Emit("Cfg", "s", c.strat, "wt", c.wt)
@@ -46,7 +57,7 @@ func concRun(rng *rand.Rand, c concCfg, rec *tr.Rec) {
 		l := make([]epJ, 0, n)
 		for i := 0; i < n; i++ {
 			h := 1 + r.Intn(H)
-			l = append(l, epJ{h, weight[h]})
+			l = append(l, epJ{h, weight[h], wtype[h]})
 		}
 		return l
 	}
@@ -54,7 +65,7 @@ func concRun(rng *rand.Rand, c concCfg, rec *tr.Rec) {
 		if op.L == nil {
 			op.L = []epJ{}
 		}
-		rec.Emit("B", "g", g, "n", next(g), "o", op.O, "h", op.H, "w", op.W, "l", op.L, "r", 0)
+		rec.Emit("B", "g", g, "n", next(g), "o", op.O, "h", op.H, "w", op.W, "t", op.T, "l", op.L, "r", 0)
 		e, cr := applyOp(sel, op)
 		if cr != nil {
 			rec.Emit("E", "g", g, "n", next(g), "r", 0, "err", e, "p", cr.Msg, "pf", cr.Func)
@@ -64,7 +75,7 @@ func concRun(rng *rand.Rand, c concCfg, rec *tr.Rec) {
 		return true
 	}
 	doSelect := func(g int, code uint32) (int, bool) {
-		rec.Emit("B", "g", g, "n", next(g), "o", "S", "h", 0, "w", 0, "l", []epJ{}, "r", 0)
+		rec.Emit("B", "g", g, "n", next(g), "o", "S", "h", 0, "w", 0, "t", 0, "l", []epJ{}, "r", 0)
 		var ep endpoint.Endpoint
 		var err error
 		cr := guard(func() { ep, err = sel.Select(hashMsg{code}) })
@@ -97,9 +108,9 @@ func concRun(rng *rand.Rand, c concCfg, rec *tr.Rec) {
 				h := 1 + r.Intn(H)
 				switch x := r.Intn(100); {
 				case x < 45:
-					op = opJ{O: "A", H: h, W: weight[h]}
+					op = opJ{O: "A", H: h, W: weight[h], T: wtype[h]}
 				case x < 88:
-					op = opJ{O: "R", H: h, W: weight[h]}
+					op = opJ{O: "R", H: h, W: weight[h], T: wtype[h]}
 				default:
 					op = opJ{O: "F", L: randList(r)}
 				}
@@ -138,10 +149,12 @@ func concRun(rng *rand.Rand, c concCfg, rec *tr.Rec) {
 		res := make([][]int, c.selectors)
 		var bad atomic.Value
 		var bw sync.WaitGroup
+		gate := make(chan struct{}) // all goroutines of the burst start together, so that their selections really overlap
 		for s := 0; s < c.selectors; s++ {
 			bw.Add(1)
 			go func(s int, r *rand.Rand) {
 				defer bw.Done()
+				<-gate
 				for i := 0; i < c.burst; i++ {
 					var ep endpoint.Endpoint
 					var err error
@@ -157,6 +170,7 @@ func concRun(rng *rand.Rand, c concCfg, rec *tr.Rec) {
 				}
 			}(s, rand.New(rand.NewSource(rng.Int63())))
 		}
+		close(gate)
 		bw.Wait()
 		all := []int{}
 		for _, r := range res {
